@@ -367,9 +367,9 @@ func runC03(r *core.Run) {
 		narrow []OpSym
 	}
 	var jobs []opJob
-	d0, d1 := 4, 2
+	d0, d1, dn := 4, 3, 4
 	if th {
-		d0, d1 = 5, 3
+		d0, d1, dn = 5, 3, 5
 	}
 	for d := 1; d <= d0; d++ {
 		if d < 3 {
@@ -409,12 +409,12 @@ func runC03(r *core.Run) {
 			})
 		}
 	}
-	if th {
-		// deep but narrow: depth 7 over a reduced alphabet (11 symbols), sharded by the first two
+	{
+		// deep but narrow: depth 6 (quick) / 7 (thorough) over a reduced alphabet (10 symbols), sharded by the first two
 		narrow := []OpSym{{K: ref.OpLit, B: 0}, {K: ref.OpLit, B: 0xFF}, {K: ref.OpMatch, Len: 2, Dist: 1}, {K: ref.OpMatch, Len: 273, Dist: -1},
 			{K: ref.OpMatch, Len: 9, Dist: 2}, {K: ref.OpRep0, Len: 2}, {K: ref.OpShortRep}, {K: ref.OpRep1, Len: 2}, {K: ref.OpRep2, Len: 3}, {K: ref.OpRep3, Len: 2}}
 		enumSyms(nil, narrow, 2, func(ops []ref.Op, suf []OpSym) {
-			jobs = append(jobs, opJob{head: suf, depth: 5, props: [3]int{1, 1, 1}, narrow: narrow})
+			jobs = append(jobs, opJob{head: suf, depth: dn, props: [3]int{1, 1, 1}, narrow: narrow})
 		})
 	}
 	var nOps int64
